@@ -47,6 +47,20 @@ def _impl_table(rows, th):
             warnings.simplefilter('ignore')
             if len(rows) % 4 == 2:       # option values as numpy scalars
                 import implutil as _iu; th = _iu.np_scalars(th)
+            if len(rows) % 5 == 3 and len(rows) >= 2:
+                # a RE-LABELLING history with the same thresholds: the table was labelled before, then its feature values were edited in place
+                # (here: it first held the rows in reverse order), or it is a window cut out of a longer labelled table; the labels are those of the
+                # values the table holds NOW
+                if len(rows) % 2 == 1:
+                    vals = {f: df[f].values.copy() for f in FEATS}
+                    for f in FEATS: df[f] = vals[f][::-1]
+                    df = detect_bursts_cycles(df, **th)
+                    for f in FEATS: df[f] = vals[f]
+                else:
+                    one = pd.DataFrame({f: [1.0] for f in FEATS})
+                    long = pd.concat([one, one, df, one, one], ignore_index=True)
+                    long = detect_bursts_cycles(long, **th)
+                    df = long.iloc[2:-2]
             out = detect_bursts_cycles(df, **th)
         return ['ok', proto.enc_bits(list(np.asarray(out['is_burst'].values).astype(bool)))]
     except Exception as e:
